@@ -48,7 +48,7 @@ func codeReturns(u *core.Unit, name, ctxName string) []Ret {
 func baseServerEffects(c *core.Ctx, R string) {
 	c.Rule(R, "effect table of engine/base-server.go: Verify — each documented refusal is returned on exactly its own edge (UNKNOWN_TRANSPORT: transport not enabled or webtransport; BAD_REQUEST/INVALID_ORIGIN: CheckInvalidHeaderChar(Origin); UNKNOWN_SID: sid given ∧ not in the client table; BAD_REQUEST/TRANSPORT_MISMATCH: ¬upgrade ∧ previous transport ≠ requested; BAD_HANDSHAKE_METHOD: no sid ∧ method ≠ GET; BAD_REQUEST/TRANSPORT_HANDSHAKE_ERROR: no sid ∧ websocket ∧ ¬upgrade; FORBIDDEN: hook present ∧ hook error) and the admitting return lies on the pass edge of every one of them; Construct installs the documented defaults (pingTimeout 20 s, pingInterval 25 s, upgradeTimeout 10 s, maxHttpBufferSize 1e6, transports {polling, websocket}, allowUpgrades, compression threshold 1024, EIO3 off) before merging the caller's options, fills the cookie defaults only where unset; ComputePath takes the caller's path / trailing-slash only when explicitly given; Use appends; ApplyMiddlewares calls back at once when there is no middleware, advances to i+1 while one remains and calls back nil after the last")
 	// ---- Verify ----
-	if u := c.Fn(R, "engine.(*baseServer).Verify"); u != nil {
+	if u := c.Fn(R, "engine.(*baseServer).Verify"); u != nil && localAnchors(c, R, u, "transport", "sid", "method", "previousTransport", "allowRequest") {
 		g := u.Graph()
 		info := u.Info()
 		enabled := func(x *core.Unit, br core.Branch) int {
@@ -60,55 +60,11 @@ func baseServerEffects(c *core.Ctx, R string) {
 			}
 			return 0
 		}
-		isStr := func(local, constSuffix string, eq bool) core.Guard {
-			return func(x *core.Unit, br core.Branch) int {
-				cmp, ok := x.BranchCmp(br)
-				if !ok || !isLocalAnyDepth(x, cmp.X, local) {
-					return 0
-				}
-				rhs := ""
-				if be, isB := ast.Unparen(br.Cond).(*ast.BinaryExpr); isB {
-					rhs = selPath(be.Y)
-				}
-				if !strings.HasSuffix(rhs, constSuffix) {
-					return 0
-				}
-				switch cmp.Op {
-				case token.EQL:
-					if eq {
-						return 1
-					}
-					return -1
-				case token.NEQ:
-					if eq {
-						return -1
-					}
-					return 1
-				}
-				return 0
-			}
-		}
-		isWT := isStr("transport", "WEBTRANSPORT", true)
-		isWS := isStr("transport", "WEBSOCKET", true)
+		isWT := gLocalStrIs("transport", "webtransport")
+		isWS := gLocalStrIs("transport", "websocket")
 		badOrigin := boolCallGuard(true, "utils.CheckInvalidHeaderChar")
-		hasSid := func(x *core.Unit, br core.Branch) int {
-			cmp, ok := x.BranchCmp(br)
-			if !ok || cmp.Val == nil || cmp.Val.ExactString() != "0" {
-				return 0
-			}
-			ce, _ := ast.Unparen(cmp.X).(*ast.CallExpr)
-			if ce == nil || calleeNameOf0(ce) != "len" || len(ce.Args) != 1 || !isLocalAnyDepth(x, ce.Args[0], "sid") {
-				return 0
-			}
-			switch cmp.Op {
-			case token.GTR, token.NEQ:
-				return 1
-			case token.EQL:
-				return -1
-			}
-			return 0
-		}
-		notGet := isStr("method", "MethodGet", false)
+		hasSid := gStrLocalNonEmpty("sid")
+		notGet := gNot(gLocalStrIs("method", "GET"))
 		upgrade := gBoolLocal(paramName(u, 1))
 		mismatch := func(x *core.Unit, br core.Branch) int {
 			cmp, ok := x.BranchCmp(br)
@@ -174,7 +130,7 @@ func baseServerEffects(c *core.Ctx, R string) {
 		c.Need(R, "admitting returns of Verify", nAdmit, 1)
 	}
 	// ---- Construct defaults ----
-	if u := c.Fn(R, "engine.(*baseServer).Construct"); u != nil {
+	if u := c.Fn(R, "engine.(*baseServer).Construct"); u != nil && localAnchors(c, R, u, "cookie") {
 		info := u.Info()
 		ms := func(name string, millis int64) callMatch {
 			return func(x *core.Unit, cl *core.Call) bool {
@@ -294,7 +250,7 @@ func baseServerEffects(c *core.Ctx, R string) {
 		_ = info
 	}
 	// ---- ComputePath ----
-	if u := c.Fn(R, "engine.(*baseServer).ComputePath"); u != nil {
+	if u := c.Fn(R, "engine.(*baseServer).ComputePath"); u != nil && localAnchors(c, R, u, "path", "addTrailingSlash") {
 		g := u.Graph()
 		given := func(accessor string) core.Guard {
 			return nilGuard(true, func(x *core.Unit, e ast.Expr) bool {
@@ -337,7 +293,7 @@ func baseServerEffects(c *core.Ctx, R string) {
 		}
 		c.Check(R, "engine.(*baseServer).Use/appends", u.Pos(), ok, "bs.middlewares = append(bs.middlewares, fn)")
 	}
-	if u := c.Fn(R, "engine.(*baseServer).ApplyMiddlewares"); u != nil {
+	if u := c.Fn(R, "engine.(*baseServer).ApplyMiddlewares"); u != nil && localAnchors(c, R, u, "apply") {
 		g := u.Graph()
 		none := func(x *core.Unit, br core.Branch) int {
 			cmp, ok := x.BranchCmp(br)
